@@ -195,6 +195,33 @@ def run(repo, chk):
                 writes.append(f"{m.name}.py:{n.lineno} {norm(n)}")
     chk.ob("R15.1", "package:selector-fields-immutable", not writes, "ptera/",
            f"constructor fields {sorted(all_fields)} are never written outside a constructor {writes}")
+    # values held in selector fields take part in the interning key: their equality must be structural and total
+    n_val = 0
+    for cq, cnode in sorted(repo.classes.items()):
+        if not cq.startswith("selector.") or not any(isinstance(m_, ast.FunctionDef) and m_.name == "__eq__" for m_ in cnode.body):
+            continue
+        cname = cq.split(".")[1]
+        init_ = next((m_ for m_ in cnode.body if isinstance(m_, ast.FunctionDef) and m_.name == "__init__"), None)
+        eq_ = next(m_ for m_ in cnode.body if isinstance(m_, ast.FunctionDef) and m_.name == "__eq__")
+        hash_ = next((m_ for m_ in cnode.body if isinstance(m_, ast.FunctionDef) and m_.name == "__hash__"), None)
+        if init_ is None:
+            continue
+        n_val += 1
+        fields_ = [t.attr for s_ in init_.body if isinstance(s_, ast.Assign) for t in s_.targets if isinstance(t, ast.Attribute) and is_name(t.value, "self")]
+        other = eq_.args.args[1].arg
+        isin = [c_ for c_ in ast.walk(eq_) if isinstance(c_, ast.Call) and is_name(c_.func, "isinstance") and len(c_.args) == 2 and is_name(c_.args[0], other)]
+        compared = {c_.left.attr for c_ in ast.walk(eq_) if isinstance(c_, ast.Compare) and len(c_.ops) == 1 and isinstance(c_.ops[0], ast.Eq)
+                    and isinstance(c_.left, ast.Attribute) and is_name(c_.left.value, "self") and isinstance(c_.comparators[0], ast.Attribute)
+                    and is_name(c_.comparators[0].value, other) and c_.comparators[0].attr == c_.left.attr}
+        ok_ = len(isin) == 1 and norm(isin[0].args[1]) == cname and compared == set(fields_)
+        chk.ob("R15.1", f"selector.{cname}.__eq__:structural-equality-with-its-own-class", ok_, f"ptera/selector.py:{eq_.lineno}",
+               f"{cname}.__eq__ holds exactly for another {cname} with equal fields {fields_} (isinstance test on `{norm(isin[0].args[1]) if isin else '?'}`, fields compared: {sorted(compared)}): "
+               "equal value expressions make equal interning keys, so the same selector text always compiles to the same object")
+        if hash_ is not None:
+            hashed = {n_.attr for n_ in ast.walk(hash_) if isinstance(n_, ast.Attribute) and is_name(n_.value, "self")}
+            chk.ob("R15.1", f"selector.{cname}.__hash__:over-the-compared-fields", hashed <= set(fields_) and bool(hashed), f"ptera/selector.py:{hash_.lineno}",
+                   f"{cname}.__hash__ is computed from compared fields only ({sorted(hashed)}): equal objects hash alike")
+    chk.count("value classes with structural equality", n_val)
     from .shared import shared_value_mutations
     muts = shared_value_mutations(repo, set(FIELD_CLASSES))
     chk.ob("R15.1", "selector:shared-values-never-changed-in-place", not muts, "ptera/selector.py",
